@@ -45,7 +45,11 @@ KernelWhy(n, ids) ==
   ELSE IF \E m \in 1..cfg.N : m - 1 # lastn /\ ids[m] # cur[m] THEN "stale-or-foreign-factor"
   \* ... and the factor updated by the previous call must be the NEW one (the drivers use generic data
   \* and stoptol = 0 for this clause, so an update never reproduces its input bit for bit)
-  ELSE IF lastn >= 0 /\ ids[lastn + 1] = cur[lastn + 1] THEN "updated-factor-not-used"
+  \* (cfg.generic: the requested rank is below every mode size and at least two modes are optimised, so the data
+  \*  cannot be fitted exactly and a sweep cannot reach a fixed point whose update reproduces its input)
+  \* The clause is applied within the first sweep only: there the previous factor is the starting guess, which an
+  \* update cannot reproduce, whereas a converged run may legitimately reach a bitwise fixed point later on.
+  ELSE IF cfg.generic /\ pos < Len(Eff(cfg)) /\ lastn >= 0 /\ ids[lastn + 1] = cur[lastn + 1] THEN "updated-factor-not-used"
   ELSE "ok"
 
 \* obs: record of observations on the returned (model, initial guess, info)
@@ -75,7 +79,7 @@ TruncWhy(k, cs, fit) ==
   ELSE "ok"
 
 ---------------------------------------------------------------------------
-Init == /\ pc = "idle" /\ cfg = [N |-> 0, dimorder |-> <<>>, optdims |-> <<>>, maxiters |-> 0]
+Init == /\ pc = "idle" /\ cfg = [N |-> 0, dimorder |-> <<>>, optdims |-> <<>>, maxiters |-> 0, generic |-> TRUE]
         /\ cur = <<>> /\ pos = 0 /\ lastn = 0 - 1 /\ calls = <<>> /\ trunc = [k |-> 0, calls |-> <<>>, fit |-> 0]
 
 Start(c, ids) == /\ pc = "idle" /\ StartWhy(c, ids) = "ok"
